@@ -350,3 +350,168 @@ def registered(history):
                 accepted.append((o, exclusive))
         layers.append((any(e for o, e in accepted), tuple(o for o, e in accepted)))
     return tuple(layers), tuple(rejected)
+
+
+# ---------------------------------------------------------------------------
+# the kind of an overload as its construction leaves it (C05)
+# ---------------------------------------------------------------------------
+def kind_after(decorated, function, method):
+    """decorated  None (plain function) | 'method' (@specs.method) | 'ext' (@specs.extension_method)
+    function, method  the tri-state overrides of register_function(f, function=..., method=...) /
+                      get_function_definition(f, function=..., method=...): None keeps what the
+                      declaration says, True / False switch that call syntax on / off.
+    -> 'function' | 'method' | 'ext', or None when neither syntax is left (extending_yaql.rst:
+    "Function type: function, method or extension method" - there is no fourth)."""
+    as_function, as_method = {None: (True, False), 'method': (False, True), 'ext': (True, True)}[decorated]
+    if function is not None:
+        as_function = function
+    if method is not None:
+        as_method = method
+    return {(True, False): 'function', (False, True): 'method', (True, True): 'ext', (False, False): None}[
+        (as_function, as_method)]
+
+
+# ---------------------------------------------------------------------------
+# the smart-type alphabet (extending_yaql.rst "Specifying function parameter
+# types" and "Lazy evaluated function parameters") - C05 type filter
+# ---------------------------------------------------------------------------
+# argument   (node, value, probe)
+#            node   how the argument is written: 'call' f(...), 'binary' a op b (also a.f()), 'unary' op a,
+#                   'index' a[b], 'list' [..], 'map' {..}, 'var' $x, or a literal: 'string' 'integer' 'float'
+#                   'boolean' 'null' 'keyword'
+#            value  the class of its value: 'str' 'int' 'float' 'bool' 'null' 'list' 'dict' 'iterator' 'datetime' 'object'
+#            probe  evaluating it is observable (it contains a tick probe)
+# type       (name, ...):
+#   ('Expression', (node class, ...))   YaqlExpression: the AST itself, "of a particular expression type rather than an
+#                                       arbitrary YAQL expression" when classes are given - lazy
+#   ('Lambda', method)                  a callable; Lambda(method=True) "must be a method" - lazy
+#   ('Constant'|'StringConstant'|'NumericConstant'|'BooleanConstant', nullable), ('Keyword',)
+#                                       "enforce particular representation in the YAQL syntax": only a literal
+#   ('String'|'Integer'|'Number'|'DateTime'|'Sequence'|'Iterable'|'Iterator', nullable)
+#   ('Python', class name, nullable)    "validates if the value is instance of a given Python type"
+#   ('AnyOf', (types), nullable), ('Chain', (types), nullable), ('NotOfType', type, nullable)
+NODE_CLASS = {'call': 'Function', 'binary': 'BinaryOperator', 'unary': 'UnaryOperator', 'index': 'IndexExpression',
+              'list': 'ListExpression', 'map': 'MapExpression', 'var': 'GetContextValue', 'string': 'Constant',
+              'integer': 'Constant', 'float': 'Constant', 'boolean': 'Constant', 'null': 'Constant',
+              'keyword': 'KeywordConstant'}
+LITERALS = ('string', 'integer', 'float', 'boolean', 'null', 'keyword')
+LAZY_TYPES = ('Expression', 'Lambda')
+CONSTANT_TYPES = {'Constant': LITERALS, 'StringConstant': ('string',), 'NumericConstant': ('integer', 'float'),
+                  'BooleanConstant': ('boolean',), 'Keyword': ('keyword',)}
+# "Strings are not considered to be collections of characters", "Booleans are not integers", "Dictionaries are not
+# iterable"; String - str; Number - integer or float; Sequence - fixed-size iterable collection, except for the
+# dictionary; Iterable - any iterable or generator; Iterator - iterator over the iterable
+VALUE_CLASSES = {'String': ('str',), 'Integer': ('int',), 'Number': ('int', 'float'), 'DateTime': ('datetime',),
+                 'Sequence': ('list',), 'Iterable': ('list', 'iterator'), 'Iterator': ('iterator',)}
+PYTHON_CLASSES = {'object': ('str', 'int', 'float', 'bool', 'list', 'dict', 'iterator', 'datetime', 'object'),
+                  'str': ('str',), 'A': ('object',)}
+
+
+def type_is_lazy(t):
+    return t[0] in LAZY_TYPES
+
+
+def type_accepts(t, arg):
+    """Is an argument compatible with a declared smart type?  True / False, or
+    None where the documentation does not say (outside the domain)."""
+    node, value, _ = arg
+    name = t[0]
+    if name == 'Expression':
+        if not t[1]:
+            return True                              # an arbitrary YAQL expression
+        if node == 'keyword' and 'Constant' in t[1] and 'KeywordConstant' not in t[1]:
+            return None                              # is a keyword a constant node?  not written down
+        return NODE_CLASS[node] in t[1]
+    if name == 'Lambda':
+        if not t[1]:
+            return True
+        return True if node == 'call' else None      # "must be a method": only said of something callable with a receiver
+    if name in CONSTANT_TYPES:
+        if node not in LITERALS:
+            return False
+        if node == 'null':
+            return None                              # `null` against a constant type: nullable is said of values only
+        if name == 'StringConstant' and node == 'keyword':
+            return None                              # a bare word is not string syntax, but its value is a string
+        return node in CONSTANT_TYPES[name]
+    if name in ('AnyOf', 'Chain', 'NotOfType'):
+        if value == 'null':
+            return t[2]
+        if name == 'NotOfType':
+            inner = type_accepts(t[1], arg)
+            return None if inner is None else not inner
+        inner = [type_accepts(x, arg) for x in t[1]]
+        if None in inner:
+            return None
+        return any(inner) if name == 'AnyOf' else all(inner)
+    nullable = t[-1]
+    if value == 'null':
+        return nullable
+    if name == 'Python':
+        return value in PYTHON_CLASSES[t[1]]
+    return value in VALUE_CLASSES[name]
+
+
+def more_specific_type(t1, t2):
+    """The subtype lattice of the property is one of classes: a type that stands
+    for a single class is more specific than 'anything' (PythonType(object))."""
+    single = ('String', 'Integer', 'DateTime')
+    return t2[:2] == ('Python', 'object') and (t1[0] in single or (t1[0] == 'Python' and t1[1] != 'object'))
+
+
+LAZINESS_AFTER_TYPES = 'static-first'     # reading A: what can be decided on the AST is decided before laziness is compared
+LAZINESS_FIRST = 'laziness-first'         # reading B: R4 before any type is looked at (the order the rules are written in)
+
+
+def resolve_typed(layers, args, reading=LAZINESS_AFTER_TYPES):
+    """Families of function overloads foo(x[, y]) whose parameters are declared
+    with smart types, called as foo(arg[, arg]) written as text.
+
+    layers  ((exclusive, ((tag, (type, ...)), ...)), ...) nearest first; every overload has len(args) parameters
+    -> (outcome, evaluated) as resolve() does, or None when an acceptance it needs is not documented."""
+    collected = []
+    for exclusive, overloads in layers:
+        if overloads:
+            collected.append(overloads)
+        if exclusive:
+            break
+    if not collected:
+        return ('error', UNKNOWN, 'function'), ()
+    verdicts = {}
+    for layer in collected:
+        for tag, types in layer:
+            verdicts[tag] = tuple(type_accepts(t, a) for t, a in zip(types, args))
+            if None in verdicts[tag]:
+                return None
+    lazy_of = lambda types: frozenset(i for i, t in enumerate(types) if type_is_lazy(t))     # noqa: E731
+    if reading == LAZINESS_FIRST and len(set(lazy_of(types) for layer in collected for tag, types in layer)) > 1:
+        return ('error', AMBIGUOUS, 'function'), ()
+    surviving, laziness = [], set()
+    for layer in collected:
+        s = []
+        for tag, types in layer:
+            # decided before evaluation: lazy and constant types look at the AST; an eager type can only judge a literal
+            known = [verdicts[tag][i] for i, (t, a) in enumerate(zip(types, args))
+                     if type_is_lazy(t) or t[0] in CONSTANT_TYPES or a[0] in LITERALS]
+            if all(known):
+                s.append((tag, types))
+                laziness.add(lazy_of(types))
+        if s:
+            surviving.append(s)
+    if not surviving:
+        return ('error', NOMATCH, 'function'), ()
+    if len(laziness) > 1:
+        return ('error', AMBIGUOUS, 'function'), ()
+    lazy = next(iter(laziness))
+    evaluated = tuple(i for i, a in enumerate(args) if i not in lazy and a[0] not in LITERALS and a[2])
+    for layer in surviving:
+        ok = [(tag, types) for tag, types in layer if all(verdicts[tag])]
+        if not ok:
+            continue
+        win = [x for x in ok if all(x is y or (any(more_specific_type(a, b) for a, b in zip(x[1], y[1])) and
+                                               not any(more_specific_type(b, a) for a, b in zip(x[1], y[1])))
+                                    for y in ok)]
+        if len(win) != 1:
+            return ('error', AMBIGUOUS, 'function'), evaluated
+        return ('run', win[0][0]), evaluated
+    return ('error', NOMATCH, 'function'), evaluated
